@@ -44,8 +44,10 @@ Inductive c10op :=
 | OpNonzero
 | OpArgwhere
 | OpWhere
-| OpSortArgwhere (axis : Z) (desc : bool).   (* argwhere(sort(x, axis, descending)): an order-dependent
+| OpSortArgwhere (axis : Z) (desc : bool)    (* argwhere(sort(x, axis, descending)): an order-dependent
                                                 observer of the raw sort result *)
+| OpT.                                       (* x.T: an observer of the transposition memo that sort and
+                                                argmax/argmin share on a cache-enabled operand *)
 
 (* what the implementation returned *)
 Inductive c10res :=
@@ -84,6 +86,7 @@ Definition spec_out (x : coo Z) (op : c10op) : outcome :=
     | Ok d' => if c_fill x =? 0 then OIdx (np_argwhere d') else OExc ValueError
     | Raise e => OExc e
     end
+  | OpT => let sh := rev (c_shape x) in OArr sh (map (fun ix => dget d (rev ix)) (all_indices sh))
   end.
 
 Inductive mout :=
@@ -103,6 +106,7 @@ Definition model_out (x : coo Z) (op : c10op) : mout :=
   | OpWhere => MCols (ss_where1 x)
   | OpArgwhere => MIdx (ss_argwhere x)
   | OpSortArgwhere axis desc => MIdx (y <- ss_sort x axis desc ;; ss_argwhere y)
+  | OpT => MArr (Ok (ss_transpose x (rev (iota (length (c_shape x))))))
   end.
 
 Definition axis_oob (x : coo Z) (op : c10op) : bool :=
@@ -136,34 +140,17 @@ Definition agrees_model (x : coo Z) (op : c10op) (r : c10res) : bool :=
   | _, _ => false
   end.
 
-(* ---- the named domain clauses (each one exists because a _refuted witness or a replayed
-   failing input shows the statement false without it).  0 = inside the domain. *)
-Definition unpruned (x : coo Z) : bool := negb (prunedb Z.eqb x).
-
-Definition clause_of (x : coo Z) (op : c10op) : Z :=
-  match op with
-  | OpSort _ _ => 0
-  | OpArg _ _ _ => if unpruned x then 7 else 0                 (* arg_unpruned_tie_with_fill *)
-  | OpUniqueValues => if unpruned x then 8 else 0              (* unique_values_unpruned *)
-  | OpUniqueCounts => if unpruned x then 10 else 0             (* unique_counts_unpruned *)
-  | OpNonzero | OpArgwhere | OpWhere | OpSortArgwhere _ _ =>
-    if (c_fill x =? 0) && unpruned x then 11 else 0                                       (* nonzero_unpruned *)
-  end.
-
 Definition res_wf (r : c10res) : bool := match r with RArr a => sarr_wfb a | _ => true end.
 
-(* verdict:
+(* verdict (no domain clause is left: every input is an ordinary input):
    0    implementation = model = Spec
    1    implementation = Spec but its representation differs from the model's (model not faithful)
-   2    implementation differs from the Spec INSIDE the domain
-   3    implementation's result is not in canonical form
-   100+k (+50 when it also differs from the model)  implementation differs from the Spec, clause k failed *)
+   2    implementation differs from the Spec
+   3    implementation's result is not in canonical form *)
 Definition judge_api (c : api_case) : Z :=
   let '(x, op, r) := c in
   let s := agrees_spec x op r in
   let m := agrees_model x op r in
-  let k := clause_of x op in
   if negb (res_wf r) then 3
   else if s then (if m then 0 else 1)
-  else if k =? 0 then 2
-  else 100 + k + (if m then 0 else 50).
+  else 2.
